@@ -70,9 +70,17 @@ HOOL_PRICES = ['22.00', '30.00', '24.50', '18.00']
 def price_schedule(seed=0, variant=0):
     """Fixed price directives (dates interleave with DATES; one before every transaction date).
     variant 1: the same directives with every rate doubled (reciprocals still terminate) -- a second
-    price map for the same (pair, date) keys, so that two ledgers of one process disagree on a rate."""
+    price map for the same (pair, date) keys, so that two ledgers of one process disagree on a rate.
+    variant 2: the same directives with the latest rate of every pair set to exactly 0 (a price that
+    exists and is zero is not a missing price: beancount values the position at 0 <quote>)."""
     r = EUR_RATES[seed % len(EUR_RATES):] + EUR_RATES[:seed % len(EUR_RATES)]
     h = HOOL_PRICES[seed % len(HOOL_PRICES):] + HOOL_PRICES[:seed % len(HOOL_PRICES)]
+    if variant == 2:
+        # the LAST directive of every (base, quote) pair is exactly zero (a delisted share, a worthless
+        # currency); the earlier directives of the pair keep their ordinary rate
+        base = price_schedule(seed, 0)
+        last = {(b, q): i for i, (d, b, x, q) in enumerate(base)}
+        return [(d, b, ('0.00' if last[(b, q)] == i else x), q) for i, (d, b, x, q) in enumerate(base)]
     if variant:
         import decimal
         return [(d, b, str(decimal.Decimal(x) * 2), q) for d, b, x, q in price_schedule(seed, 0)]
